@@ -434,6 +434,7 @@ def verify(contract, tier, check, budget=None, prefix=None):
             with open(os.path.join(dump, safe + ".txt"), "w") as f:
                 f.write("TRACE " + " / ".join(ob.trace) + "\nGOAL " + str(ob.goal) + "\n")
     results = solve_all(jobs)
+    deferred = {}        # shape name -> refuted obligations none of whose counter-models reproduces on the real code
     for res, (shape, values, st0, ob) in zip(results, metas):
         rep.obligations += 1
         oid = res["name"]
@@ -441,11 +442,30 @@ def verify(contract, tier, check, budget=None, prefix=None):
             rep.discharged += 1
             check.add_obligation(Obligation(oid, contract.key, ob.kind, res["solver"], "discharged", round(res["seconds"], 3)))
         elif res["result"] == "sat":
-            handle_refuted(contract, shape, values, st0, ob, oid, res, check, prop)
+            pending = handle_refuted(contract, shape, values, st0, ob, oid, res, check, prop)
+            if pending is not None:
+                deferred.setdefault(shape.name, []).append((ob, oid, res, pending))
         elif res["result"] == "error":
             check.engine_error(f"{oid}: {res['detail']}")
         else:
             check.add_obligation(Obligation(oid, contract.key, ob.kind, res["solver"], "undecided", round(res["seconds"], 3), res["detail"]))
+    # Refuted obligations without a reproducing input (DESIGN 2.7).  If a LOOP INVARIANT of the function is among them, the
+    # sidecar invariant is simply not inductive for the current body (a counter-example to induction is not a reachable state;
+    # every later obligation of that shape was derived under the broken invariant): a failed proof, i.e. *undecided* - the
+    # function is not under deductive contract in this run and the bounded stand-in decides.  Otherwise (postcondition, safety,
+    # exception or callee-precondition obligations of a function whose invariants all hold) the refutation is reported as a
+    # violation with the verifier's output and `no-failing-input-found`.
+    for shape_name, items in deferred.items():
+        broken_inv = [oid for ob, oid, res, pending in items if ob.kind.startswith(("inv0", "invS"))]
+        for ob, oid, res, pending in items:
+            if broken_inv:
+                check.add_obligation(Obligation(oid, contract.key, ob.kind, res["solver"], "undecided", round(res["seconds"], 3),
+                                                "refuted, but no counter-model reproduces on the real code and a loop invariant of this function "
+                                                f"({broken_inv[0]}) is not inductive for the current body: failed proof, decided by the bounded stand-in"))
+                rep.status = "invariant-not-inductive"
+            else:
+                check.refuted_without_input(*pending)
+                check.add_obligation(Obligation(oid, contract.key, ob.kind, res["solver"], "refuted", round(res["seconds"], 3), "no-failing-input-found"))
     rep.seconds = time.time() - t_start
     check.functions[contract.key] = {"obligations": rep.obligations, "discharged": rep.discharged, "paths": rep.paths,
                                      "status": rep.status, "shapes": len(contract.shapes),
@@ -507,7 +527,6 @@ def handle_refuted(contract, shape, values, st0, ob, oid, res, check, prop):
         if verdicts and all(v == "known" for v in verdicts):
             check.add_obligation(Obligation(oid, contract.key, ob.kind, res["solver"], "known-finding", round(res["seconds"], 3), ""))
             return
-    check.refuted_without_input(oid, dict(function=contract.key, shape=shape.name), "obligation refuted by the solver; no replayed model reproduces",
-                    {"kind": "obligation", "contract": contract.key},
-                    {"solver": res["solver"], "detail": res["detail"], "models_tried": tried[:6], "trace": ob.trace[-8:]})
-    check.add_obligation(Obligation(oid, contract.key, ob.kind, res["solver"], "refuted", round(res["seconds"], 3), "no-failing-input-found"))
+    return (oid, dict(function=contract.key, shape=shape.name), "obligation refuted by the solver; no replayed model reproduces",
+            {"kind": "obligation", "contract": contract.key},
+            {"solver": res["solver"], "detail": res["detail"], "models_tried": tried[:6], "trace": ob.trace[-8:]})
